@@ -19,7 +19,8 @@ func GetAlternativesSearchOrder(
 	if len(params.GetCurrentChoice()) > 0 {
 		allAlternatives := dm.AllAlternatives()
 		choice := model.FetchAlternative(&allAlternatives, params.GetCurrentChoice())
-		leftAlternatives := model.RemoveAlternative(dm.ConsideredAlternatives, choice)
+		// remove from a copy: RemoveAlternative shifts the backing array, which would corrupt dm.ConsideredAlternatives
+		leftAlternatives := model.RemoveAlternative(*model.CopyAlternatives(&dm.ConsideredAlternatives), choice)
 		otherAlternatives := OrderAlternatives(params.IsRandomAlternativesOrdering(), &leftAlternatives, generator)
 		return choice, *otherAlternatives
 	} else {
